@@ -119,7 +119,7 @@ func (e *Engine) RunReplay(o *Outcome) map[string]interface{} {
 	os.WriteFile(ovPath, ov, 0o644)
 	ctx, cancel := context.WithTimeout(context.Background(), 15*time.Minute)
 	defer cancel()
-	cmd := exec.CommandContext(ctx, "go", "test", "-overlay", ovPath, "-vet=off", "-count=1", "-timeout", "600s", "-run", "^"+r.TestName+"$", "./"+r.PkgDir)
+	cmd := exec.CommandContext(ctx, "go", "test", "-overlay", ovPath, "-vet=off", "-count=1", "-timeout", "600s", "-run", runPattern(r.TestName), "./"+r.PkgDir)
 	cmd.Dir = e.Repo
 	cmd.Env = append(os.Environ(), "GOFLAGS=-mod=mod", "GOPROXY=off", "GOSUMDB=off", "GOTOOLCHAIN=local")
 	start := time.Now()
@@ -143,6 +143,15 @@ func (e *Engine) RunReplay(o *Outcome) map[string]interface{} {
 }
 
 func init() {
+	// C20: one large limit-open order whose own borrow takes pool health below the open
+	// threshold: perpetual.Open fails after moving the collateral (fixed scenario with default
+	// params, found by a sub-agent on the real code; no model values needed).
+	registerReplay(&Replayer{
+		Obligation: "x/tradeshield/keeper.(Keeper).ExecuteLimitOpenOrder/ensures:C20/funds-conserved-on-failed-open",
+		Template:   "C20_partial_open.go.tmpl", PkgDir: "x/tradeshield/keeper", TestName: "TestKeeperSuite/TestC20PartialOpenOnFailedLimitOpenExecution",
+		Marker: "C20 violated on the real code",
+		Data:   func(m map[string]string, goal string) (map[string]interface{}, error) { return map[string]interface{}{}, nil },
+	})
 	// C14: a vesting entry whose released amount is ahead of its (reduced) schedule; the
 	// claim must still succeed. Reached after a partial cancel (Cancel > 0) or directly.
 	registerReplay(&Replayer{
@@ -170,4 +179,12 @@ func init() {
 			return nil, fmt.Errorf("model names no vesting entry")
 		},
 	})
+}
+
+func runPattern(name string) string {
+	parts := strings.Split(name, "/")
+	for i := range parts {
+		parts[i] = "^" + parts[i] + "$"
+	}
+	return strings.Join(parts, "/")
 }
